@@ -17,8 +17,32 @@ CLASSES = [KeyboardInterrupt, SystemExit, GeneratorExit, RecursionError, ValueEr
            Custom, StrOverride, ZeroDivisionError, BaseException]
 
 
+def render_nested(depth):
+    """one template rendering itself `depth` levels deep through an explicit render() call in an
+    expression; the innermost level raises.  Every level fails at the SAME call site, so the
+    records of the levels are equal tuples."""
+    from chameleon import PageTemplate
+    inst = ValueError('boom')
+    _last.clear()
+    _last['raised_inside'] = inst
+    _last['levels'] = depth + 1
+    t = PageTemplate('<p>${inner(n)}</p>')
+
+    def inner(n):
+        if n == 0:
+            raise inst
+        return t.render(inner=inner, n=n - 1)
+    try:
+        return t.render(inner=inner, n=depth)
+    except BaseException as e:
+        _last['message'] = str(e)
+        raise
+
+
 def render_raising(self, __kw):
     from chameleon import PageTemplate
+    if 'nested' in __kw:
+        return render_nested(__kw['nested'])
     cls = __kw['cls']
     inst = cls('boom') if cls is not Custom else Custom('boom')
     _last.clear()
@@ -33,6 +57,15 @@ def render_raising(self, __kw):
 def gen_exceptions():
     for c in CLASSES:
         yield ({'self': None, '__kw': {'cls': c}}, {})
+    for depth in (0, 1, 2, 3):
+        yield ({'self': None, '__kw': {'nested': depth}}, {})
+
+
+def call_sites_complete():
+    """the message lists one call site per enclosing render level (innermost to outermost)"""
+    if 'levels' not in _last:
+        return True
+    return _last.get('message', '').count(' - Expression: "inner(n)"') == _last['levels']
 
 
 # concrete primitives for the contract clauses that can be observed from outside
